@@ -111,7 +111,7 @@ def main():
         sh("git -C %s checkout -- evidence" % VERIF)
         sh("git -C %s checkout -- replays; git -C %s clean -fdq replays" % (VERIF, VERIF))
         # ... and the regenerated parts of the Lean project
-        sh("git -C %s checkout -- lean/Pulsar/Extracted.lean lean/Pulsar/ExtractedCode.lean" % VERIF)
+        sh("git -C %s checkout -- lean/Pulsar/Extracted.lean lean/Pulsar/ExtractedCode.lean lean/Pulsar/ExtractedFns.lean" % VERIF)
     print(json.dumps({k: len(v) for k, v in fired.items()}))
     if "--record" in sys.argv:
         import time
